@@ -49,7 +49,9 @@ type ProcScript struct {
 	OpenErr map[int]string
 	// ConfigureErr likewise.
 	ConfigureErr map[int]string
-	LatencyUs    []int
+	// TeardownErr: error text every Teardown of the processor returns ("" = none).
+	TeardownErr string `json:",omitempty"`
+	LatencyUs   []int
 }
 
 // KindOf is the scripted result kind for a record (ignoring cut-short).
@@ -165,7 +167,13 @@ func (s *procSession) Teardown(context.Context) error {
 		s.torn = true
 	}
 	s.mu.Unlock()
-	s.st.p.Log.Append(Ev{Kind: KProcTeardown, Comp: s.st.ID, Role: "proc", Sess: s.sess, Gen: s.getGen()})
+	e := Ev{Kind: KProcTeardown, Comp: s.st.ID, Role: "proc", Sess: s.sess, Gen: s.getGen()}
+	if msg := s.st.Script.TeardownErr; msg != "" {
+		e.Err = msg
+		s.st.p.Log.Append(e)
+		return errors.New(msg)
+	}
+	s.st.p.Log.Append(e)
 	return nil
 }
 
@@ -294,6 +302,20 @@ type Procs struct {
 	NewErr map[string]string
 }
 
+// SetNewErr makes NewProcessor fail for the processor (msg == "" clears it).
+func (p *Procs) SetNewErr(id, msg string) {
+	p.mu.Lock()
+	defer p.mu.Unlock()
+	if p.NewErr == nil {
+		p.NewErr = map[string]string{}
+	}
+	if msg == "" {
+		delete(p.NewErr, id)
+	} else {
+		p.NewErr[id] = msg
+	}
+}
+
 func NewProcs(l *Log) *Procs { return &Procs{Log: l, st: map[string]*ProcState{}} }
 
 func (p *Procs) Proc(id string) *ProcState {
@@ -308,7 +330,11 @@ func (p *Procs) Proc(id string) *ProcState {
 }
 
 func (p *Procs) NewProcessor(_ context.Context, pluginName string, id string, _ egress.Policy) (sdk.Processor, error) {
-	if msg, ok := p.NewErr[id]; ok {
+	p.mu.Lock()
+	msg, bad := p.NewErr[id]
+	p.mu.Unlock()
+	if bad {
+		p.Log.Append(Ev{Kind: KNote, Comp: id, Role: "proc", Note: "NewProcessor fails", Err: msg})
 		return nil, errors.New(msg)
 	}
 	st := p.Proc(id)
